@@ -82,7 +82,11 @@ func baseDoFile(L *LState) int {
 }
 
 func baseError(L *LState) int {
-	obj := L.CheckAny(1)
+	// error() without arguments raises nil, as in Lua 5.1 (lua_settop(L, 1))
+	var obj LValue = LNil
+	if L.GetTop() > 0 {
+		obj = L.Get(1)
+	}
 	level := L.OptInt(2, 1)
 	L.Error(obj, level)
 	return 0
